@@ -149,6 +149,44 @@ theorem C11_reject_altered_point [Fact r.Prime] (τ c H v z z' : ℕ)
   · exact hne (sub_eq_zero.mp h)
   · exact hH h
 
+/-! ### partial vanishing: one operand of the pairing product is the identity
+
+`Verify` checks `e(A, G₂)·e(−H, [τ]G₂) = 1` with `A = [v]G₁ − [z]H − C`. When ONE operand is the identity the verdict is
+still the relation's: it is decided by the other operand (op classes `verify`/`reuse`/`batch1`/`multi` of c11_vanish.go). -/
+
+/-- first operand the identity, `c − v + z·h = 0` (publicly reachable for any commitment and any claimed value:
+`H = [−1/z](C − [v]G₁)`): accepted iff the second product is trivial, `τ·h = 0` -/
+theorem C11_first_operand_zero_iff (τ c H v z : ℕ) (h0 : (c : ZMod r) - v + (z : ZMod r) * H = 0) :
+    verify r (vkOf r τ) c H v z = true ↔ (τ : ZMod r) * H = 0 := by
+  rw [verify_iff]
+  constructor
+  · intro h; linear_combination h0 - h
+  · intro h; linear_combination h0 - h
+
+/-- … hence REJECTED whenever the quotient commitment is not the identity (and the trapdoor is not 0) -/
+theorem C11_reject_first_operand_zero [Fact r.Prime] (τ c H v z : ℕ)
+    (h0 : (c : ZMod r) - v + (z : ZMod r) * H = 0) (hτ : (τ : ZMod r) ≠ 0) (hH : (H : ZMod r) ≠ 0) :
+    verify r (vkOf r τ) c H v z = false := by
+  rw [Bool.eq_false_iff, Ne, C11_first_operand_zero_iff r τ c H v z h0]
+  exact mul_ne_zero hτ hH
+
+/-- second operand the identity, `H = O`: accepted iff `c = v` (whatever the point); a wrong value is rejected -/
+theorem C11_second_operand_zero_iff (τ c H v z : ℕ) (hH : (H : ZMod r) = 0) :
+    verify r (vkOf r τ) c H v z = true ↔ (c : ZMod r) = v := by
+  rw [verify_iff, hH, mul_zero, sub_eq_zero]
+
+/-- degenerate key `[τ]G₂ = O` (τ = 0): the second pair is trivial and the first operand alone decides -/
+theorem C11_trapdoor_zero_iff (τ c H v z : ℕ) (hτ : (τ : ZMod r) = 0) :
+    verify r (vkOf r τ) c H v z = true ↔ (c : ZMod r) - v + (z : ZMod r) * H = 0 := by
+  rw [verify_iff, hτ]
+  constructor
+  · intro h; linear_combination h
+  · intro h; linear_combination h
+
+-- r = 13, τ = 5: c = v − z·h = 4 − 2·10 = 10: first operand zero, h = 10 ≠ 0: rejected; h = 0, c ≠ v: rejected; h = 0, c = v: accepted
+example : verify 13 (vkOf 13 5) 10 10 4 2 = false ∧ verify 13 (vkOf 13 5) 5 0 4 2 = false ∧
+    verify 13 (vkOf 13 5) 4 0 4 2 = true ∧ verify 13 (vkOf 13 0) 10 10 4 2 = true := by decide
+
 example : verify 13 (vkOf 13 5) 8 10 4 2 = true ∧ verify 13 (vkOf 13 5) 8 11 4 2 = false ∧
     verify 13 (vkOf 13 5) 8 10 4 3 = false ∧ verify 13 (vkOf 13 5) 9 10 4 2 = false := by decide
 
